@@ -1,6 +1,7 @@
 """Spec helpers with two readings: z3 terms (proof) and CPython values
 (replay, bounded stand-ins).  A clause written with these helpers is one text
 with both meanings."""
+import os
 import z3
 
 
@@ -201,6 +202,18 @@ class Fold:
             harrs.append(arr)
         k = _lift(k, None)
         params = [_lift(p, None) for p in params]
+        # an argument that is an if-then-else (a ghost value whose case the solver could not settle in time when the clause
+        # was built) is split: the defining equations are registered for each alternative's own terms, so the set of
+        # instances does not depend on whether the case was settled
+        for pos, a in enumerate([k] + params):
+            if z3.is_app(a) and a.decl().kind() == z3.Z3_OP_ITE and _depth is None and not os.environ.get("VERIF_NO_ITE_SPLIT"):
+                c_, t_, e_ = a.arg(0), a.arg(1), a.arg(2)
+
+                def again(x):
+                    args = [k] + list(params)
+                    args[pos] = x
+                    return self.__call__(env, seq, args[0], *args[1:])
+                return z3.If(c_, again(t_), again(e_))
         sorts = [seq.sort(), z3.IntSort()] + [a.sort() for a in harrs] + [p.sort() for p in params]
         F = z3.Function('fold_' + self.name, *(sorts + [self.ret_sort]))
 
